@@ -1018,7 +1018,7 @@ package res
 //@   modifies alloc
 //@   loop 1 invariant -1 <= rangeindex && rangeindex < len(g) + 0 && forall(k, 0, len(g), imp(len(g[k].str) == 0, 0 <= g[k].idx && g[k].idx < len(tokens)))
 //@ func matchNode(l *node, toks []string, i int, mi int, nm *nodeMatch) (ok bool)
-//@   requires l != nil && isnode[ref(l)] && WF() && nm != nil && 0 <= mi && mi <= i && i < len(toks)
+//@   requires l != nil && isnode[ref(l)] && WF() && pendm == 0 && nm != nil && 0 <= mi && mi <= i && i < len(toks)
 //@   requires rel: imp(!l.mounted, i - mi == nr[ref(l)])
 //@   modifies *nm, alloc
 //@   ensures found: imp(ok, nm.n != nil && isnode[ref(nm.n)] && 0 <= nm.mountIdx && nm.mountIdx + nr[ref(nm.n)] <= len(toks))
